@@ -7,7 +7,7 @@ def _sum(results, key):
 
 CHECKS = {}
 # checks run end-to-end and reviewed by the lead; only these are claimed in MANIFEST.json
-REVIEWED = ["C01", "C02", "C03", "C04", "C05", "C06", "C07", "C08", "C09", "C10", "C11", "C12", "C13", "C14", "C15", "C17", "C18", "C19", "C20"]
+REVIEWED = ["C01", "C02", "C03", "C04", "C05", "C06", "C07", "C08", "C09", "C10", "C11", "C12", "C13", "C14", "C15", "C16", "C17", "C18", "C19", "C20"]
 NOT_APPLICABLE = {}  # property -> reason, for properties deliberately not claimed
 
 # ------------------------------------------------------------------------------------------------ C01
@@ -18,7 +18,8 @@ def _px(name, *args, **kw):
 CHECKS["C01"] = dict(
     level="exploration",
     rule="Documents: all words <= k over the byte/token alphabets (document tokens incl. raw invalid bytes, DTD-subset tokens placed in an internal and "
-         "in an external subset, XSD component tokens inside xs:schema), a catalogue of single-constraint violations, the DTD-rich structured space and "
+         "in an external subset, XSD component tokens inside xs:schema), a catalogue of single-constraint violations, every single-character deletion and duplication of 15 well-formed markup declarations (dtdmut: the error-recovery "
+         "branches of DTDScanner) in the internal and in the external subset, the DTD-rich structured space and "
          "every proper byte prefix of its documents. Each document is parsed under a *listed* configuration set: the full product "
          "{SAX1,SAX2,DOM,DOMLS,progressive} x 4 scanners x 3 validation schemes x 2^7 features (7680 configurations) for k<=1, and the 60 cores x a "
          "16-row strength-2 covering array of the 7 features (960 configurations) or a 48-configuration subset otherwise. Oracle: process survives, no "
@@ -34,6 +35,7 @@ CHECKS["C01"] = dict(
                _px("catalogue-960cfg", "--space", "c01", "--docs", "s3", "--cfgset", "array"),
                _px("dtd-words-k1-960cfg", "--space", "c01", "--docs", "dtd", "--k", 1, "--cfgset", "array"),
                _px("xsd-words-k1-960cfg", "--space", "c01", "--docs", "xsd", "--k", 1, "--cfgset", "array"),
+               _px("dtd-declaration-damage-960cfg", "--space", "c01", "--docs", "dtdmut", "--cfgset", "array"),
                _px("prefixes", "--space", "prefix", "--rootattrs", 1, "--content", 0)],
         thorough=[_px("doc-words-k1-full-product", "--space", "c01", "--docs", "s1", "--k", 1, "--cfgset", "full"),
                   _px("doc-words-k2-960cfg", "--space", "c01", "--docs", "s1", "--k", 2, "--cfgset", "array"),
@@ -42,6 +44,7 @@ CHECKS["C01"] = dict(
                   _px("dtd-words-k2-48cfg", "--space", "c01", "--docs", "dtd", "--k", 2, "--cfgset", "small"),
                   _px("dtd-words-k1-full", "--space", "c01", "--docs", "dtd", "--k", 1, "--cfgset", "full"),
                   _px("xsd-words-k2-48cfg", "--space", "c01", "--docs", "xsd", "--k", 2, "--cfgset", "small"),
+                  _px("dtd-declaration-damage-full", "--space", "c01", "--docs", "dtdmut", "--cfgset", "full"),
                   _px("dtd-rich-k1-960cfg", "--space", "c01", "--docs", "s4", "--k", 1, "--cfgset", "array"),
                   _px("prefixes", "--space", "prefix", "--rootattrs", 2, "--content", 0)],
     ),
